@@ -1,5 +1,6 @@
 import XzVerif.Proofs.SizeBound
 import XzVerif.Proofs.Writer2Size
+import XzVerif.Proofs.HashTable
 /-
   C17 — Compression is effective on redundancy and never expands data noticeably.
 
@@ -65,6 +66,16 @@ theorem C17_lzma2_no_expansion {σ : Type} (c : W2.Cfg) (hc : W2.CfgOk c) (hdict
     let n := (W2.payload (ps.map .write)).size
     w.out.size ≤ n + n / 500 + 128 :=
   W2.no_flush_size_bound c hc hdict M hM m0 ps hok
+
+/-- … and without any hypothesis for the HashTable4 model of the default match finder -/
+theorem C17_lzma2_no_expansion_hashtable4 (c : W2.Cfg) (hc : W2.CfgOk c) (hdict : 65536 ≤ c.dictCap)
+    (ps : List ByteArray) :
+    let w := (W2.run c HT.HT4 (W2.init c (HT.St.new c.dictCap c.bufSize)) (ps.map .write ++ [.close])).1
+    let n := (W2.payload (ps.map .write)).size
+    w.out.size ≤ n + n / 500 + 128 :=
+  W2.no_flush_size_bound_I c hc hdict HT.HT4 (HT.Synced c) (HT.ht4_matcherInv c) _ (HT.synced_new c) ps
+    (W2.no_error_of_margin_I (by decide) c hc HT.HT4 (HT.Synced c) (HT.ht4_matcherInv c) _ (HT.synced_new c)
+      (ps.map .write) (by intro call hc'; simp only [List.mem_map] at hc'; obtain ⟨p, _, rfl⟩ := hc'; simp) .close)
 
 example : Expansion.sumSz [(65000, 65536, true), (100, 40, false)] = 65003 + 46 := by decide
 
